@@ -49,7 +49,8 @@ CONFIGS = {
                        ParenPreds=set(), Preds2=set(), DocSibs=True, NsTests=set())),
         # boundary positions (0, size, size-1, beyond size) on every axis and on parenthesised sub-paths
         ('N3-POS', dict(N=3, Kinds={"ea", "eb", "t"}, RootCfg="R1", Axes=set(AXES) - {"attribute"},
-                        Tests={"node()", "*"}, Preds={"0", "3", "last()-1", "position()>1"}, ParenPreds={"0", "3", "last()-1", "position()>1"},
+                        Tests={"node()", "*"}, Preds={"0", "3", "1.5", "last() div 2", "last()-1", "position()>1"},
+                        ParenPreds={"0", "3", "1.5", "last() div 2", "last()-1"},
                         Preds2=set(), DocSibs=False, NsTests=set())),
         # E/(axis::test)[n]: a parenthesised step inside a path is numbered in document order (2.0+ parsers)
         ('N3-PS', dict(N=3, Kinds={"ea", "eb", "t"}, RootCfg="R1", Axes=set(AXES) - {"attribute"},
@@ -466,7 +467,7 @@ def tree_worker(job):
 # (spec/TracePaths.tla evaluates the steps with the operators of Paths.tla)
 
 ALL_TESTS = ["node()", "*", "a", "b", "text()", "comment()", "processing-instruction()"]
-ALL_PREDS = ["0", "1", "2", "3", "last()", "last()-1", "position()<2", "position()<3", "position()>1", "b", "@a", "not(b)", "text()"]
+ALL_PREDS = ["0", "1", "2", "3", "1.5", "last() div 2", "last()", "last()-1", "position()<2", "position()<3", "position()>1", "b", "@a", "not(b)", "text()"]
 AFTER_ATTR = ["parent", "ancestor", "following", "preceding", "child", "descendant",
               "following-sibling", "preceding-sibling"]   # (attribute-context name tests are a known finding)
 
